@@ -407,26 +407,14 @@ Definition scalar_sign (a : value) : result value :=
   | _ => Fail "unsupported: sign operand"
   end.
 
-(* bit intrinsics on 32-bit patterns *)
-Fixpoint bitcount (n : nat) (a : Z) : Z :=
-  match n with O => 0 | S n' => (if Z.testbit a (Z.of_nat n') then 1 else 0) + bitcount n' a end.
-(* index of the most significant set bit among bits n-1..0, or -1 *)
-Fixpoint msb_index (n : nat) (a : Z) : Z :=
-  match n with O => -1 | S n' => if Z.testbit a (Z.of_nat n') then Z.of_nat n' else msb_index n' a end.
-(* index of the least significant set bit among bits i..31, or -1 *)
-Fixpoint lsb_index (fuel : nat) (i : Z) (a : Z) : Z :=
-  match fuel with O => -1 | S f => if Z.testbit a i then i else lsb_index f (i + 1) a end.
-Fixpoint bitrev (n : nat) (a : Z) : Z :=
-  match n with
-  | O => 0
-  | S n' => (if Z.testbit a (Z.of_nat n') then Z.shiftl 1 (31 - Z.of_nat n') else 0) + bitrev n' a
-  end.
-
-(* firstbithigh: unsigned: position (from the LSB) of the highest set bit; signed: for a negative
-   argument the highest CLEAR bit; all-ones (-1) when there is none *)
-Definition firstbithigh_u (x : Z) : Z := wrap32 (msb_index 32 x).
-Definition firstbithigh_i (x : Z) : Z := wrap32 (msb_index 32 (if sint x <? 0 then two32 - 1 - x else x)).
-Definition firstbitlow_any (x : Z) : Z := wrap32 (lsb_index 32 0 x).
+(* bit intrinsics on 32-bit patterns; the bit-counting utilities are those of Base/Bits32.v.
+   firstbithigh: unsigned: position (from the LSB) of the highest set bit = 31 - (leading zeros);
+   signed: for a negative argument the highest CLEAR bit; firstbitlow: position of the lowest set
+   bit; all-ones (-1) when there is no such bit *)
+Definition firstbithigh_u (x : Z) : Z := if x =? 0 then two32 - 1 else 31 - count_leading_zeros x.
+Definition firstbithigh_i (x : Z) : Z :=
+  if sint x <? 0 then firstbithigh_u (two32 - 1 - x) else firstbithigh_u x.
+Definition firstbitlow_any (x : Z) : Z := if x =? 0 then two32 - 1 else count_trailing_zeros x.
 
 Definition int1u (f : Z -> Z) (a : value) : result value :=      (* uint-returning bit intrinsics *)
   match a with
@@ -469,7 +457,11 @@ Definition dot_op (a b : value) : result value :=
   end.
 
 (* mul(x, y): HLSL matrices are lists of rows.  vector x matrix: x is a row vector;
-   matrix x vector: y is a column vector; matrix x matrix: rows of x times columns of y. *)
+   matrix x vector: y is a column vector; matrix x matrix: rows of x times columns of y;
+   a scalar operand multiplies every component.  Each result component is a dot product
+   (products, then a left-to-right sum).  HLSL does not fix which factor of a product is
+   written first; IEEE multiplication is commutative, and the order chosen here (the
+   component of y first) is recorded in DialectChoices.md. *)
 Definition rows_of (m : value) : result (list (list value)) :=
   match m with VMat rs => rmap vec_elems rs | _ => Fail "unsupported: expected matrix" end.
 
@@ -490,15 +482,15 @@ Definition mul_op (x y : value) : result value :=
   match x, y with
   | VVec v, VMat _ =>
     rows <~ rows_of y ;;
-    r <~ rmap (fun col => dot_lists v col) (columns 5 rows) ;; Done (VVec r)
+    r <~ rmap (fun col => dot_lists col v) (columns 5 rows) ;; Done (VVec r)
   | VMat _, VVec v =>
     rows <~ rows_of x ;;
-    r <~ rmap (fun row => dot_lists row v) rows ;; Done (VVec r)
+    r <~ rmap (fun row => dot_lists v row) rows ;; Done (VVec r)
   | VMat _, VMat _ =>
     xr <~ rows_of x ;; yr <~ rows_of y ;;
     let yc := columns 5 yr in
-    r <~ rmap (fun row => e <~ rmap (fun col => dot_lists row col) yc ;; Done (VVec e)) xr ;; Done (VMat r)
-  | _, _ => check (bin_op BMul x y)
+    r <~ rmap (fun row => e <~ rmap (fun col => dot_lists col row) yc ;; Done (VVec e)) xr ;; Done (VMat r)
+  | _, _ => check (bin_op BMul y x)
   end.
 
 Definition intrinsic_known (f : string) : bool :=
@@ -522,8 +514,8 @@ Definition intrinsic (f : string) (args : list value) : result value :=
     else if String.eqb f "asfloat" then lift1 (reinterpret KFloat) a
     else if String.eqb f "abs" then lift1 scalar_abs a
     else if String.eqb f "sign" then lift1 scalar_sign a
-    else if String.eqb f "countbits" then lift1 (int1u (bitcount 32)) a
-    else if String.eqb f "reversebits" then lift1 (int1u (bitrev 32)) a
+    else if String.eqb f "countbits" then lift1 (int1u count_one_bits) a
+    else if String.eqb f "reversebits" then lift1 (int1u reverse_bits) a
     else if String.eqb f "firstbithigh" then
       lift1 (fun v => match v with VU32 x => Done (VU32 (firstbithigh_u x)) | VI32 x => Done (VU32 (firstbithigh_i x))
                                | _ => Fail "unsupported: firstbithigh operand" end) a
